@@ -10,6 +10,7 @@
 -/
 import Gama.Lemmas.FullPending
 import Gama.Lemmas.FullPendingSvd
+import Gama.Lemmas.FullRefusalSvd
 import Gama.Lemmas.NetRawReaders
 namespace Gama.Props.C04
 open Gama Gama.C04 Gama.C04.Full Gama.C04.Net
@@ -52,9 +53,8 @@ example :
     `SVD::min_x(list)` throws from inside `AdjSVD::min_x` before `is_solved = false`).  After any history — refusals and
     resets to other inputs included, no hypothesis — every query of an object in `PendingS` is answered differently from
     a fresh object (which refuses every query there, `defect()`/`lindep()` included: the decomposition regularises).
-    PARTIAL as a characterisation: the converse (`¬ PendingS → = fresh` with refusals in the history) is not proved — the
-    svd machine differs from a fresh one also in `decomposed ∧ ¬solved ∧ refuses` for `defect`/`lindep` only
-    (`Full.decomposed_step_ne_fresh`; the solving queries agree there: `Full.decomposed_unsolved_step_eq_fresh`). -/
+    Round 13: the converse holds too — `svd_fresh_iff_not_differs` is the exact per-query characterisation, and
+    `svd_history_free_with_refusals` the hypothesis-free history freedom. -/
 theorem svd_pending_differs_from_fresh (inp0 : Full.Input) (sub : Bool) (l0 : Option (List Nat)) (ops : List Full.HOp)
     (q : Full.Op) :
     let h := hsrun ⟨inp0, Full.sinit sub l0⟩ ops
@@ -69,6 +69,53 @@ example :
     PendingS h.inp h.s ∧ (hsstep h (.q .unknowns)).2 = .x .plain
     ∧ Full.sfresh h.inp h.s.sub h.s.list .unknowns = .badReg := by
   exact ⟨by decide, by decide, by decide⟩
+
+/-- **svd: history freedom WITH refused solves in the history (round 13; the converse of the above).**  No hypothesis on
+    inputs, lists or outcomes (`SCfgOk`, `ValidS`, `op.Ok` gone): after ANY history of queries, `min_x…`, `reset`,
+    `reset(A', b')` every QUERY is answered as by a brand-new object with the current input and configuration, unless the
+    state is `StaleS` (`0 < defect ∧ a subset is configured ∧ it does not resolve ∧ decomposed`: a decomposition made
+    under an earlier configuration survived a refused `min_x(list)`; `PendingS ⊆ StaleS`). -/
+theorem svd_history_free_with_refusals (inp0 : Full.Input) (sub : Bool) (l0 : Option (List Nat)) (ops : List Full.HOp)
+    (q : Full.Op) :
+    let h := hsrun ⟨inp0, Full.sinit sub l0⟩ ops
+    q.IsQuery → ¬ StaleS h.inp h.s → (hsstep h (.q q)).2 = Full.sfresh h.inp h.s.sub h.s.list q :=
+  hs_history_free_with_refusals_query inp0 sub l0 ops q
+
+/-- … for every op, with the one configuration call that is itself refused excluded: `min_x(n, list)` with a
+    non-resolving list on a DECOMPOSED singular system re-regularises at once and throws, a fresh object stores the list
+    and returns (`MinxRefusedS`; both halves: `Full.minxRefused_step`) -/
+theorem svd_history_free_with_refusals_all_ops (inp0 : Full.Input) (sub : Bool) (l0 : Option (List Nat))
+    (ops : List Full.HOp) (op : Full.Op) :
+    let h := hsrun ⟨inp0, Full.sinit sub l0⟩ ops
+    ¬ StaleS h.inp h.s → ¬ MinxRefusedS h.inp h.s op → (hsstep h (.q op)).2 = Full.sfresh h.inp h.s.sub h.s.list op :=
+  hs_history_free_with_refusals inp0 sub l0 ops op
+
+/-- **svd: the exact region, per query.**  Along every history a query is answered as by a fresh object IF AND ONLY IF
+    not (`0 < defect`, a non-resolving subset is configured, and — for `defect()`/`lindep()` — the object is decomposed,
+    — for every other query — it is solved). -/
+theorem svd_fresh_iff_not_differs (inp0 : Full.Input) (sub : Bool) (l0 : Option (List Nat)) (ops : List Full.HOp)
+    (q : Full.Op) :
+    let h := hsrun ⟨inp0, Full.sinit sub l0⟩ ops
+    q.IsQuery → ((hsstep h (.q q)).2 = Full.sfresh h.inp h.s.sub h.s.list q ↔ ¬ DiffersS h.inp h.s q) :=
+  hs_fresh_iff inp0 sub l0 ops q
+
+/-- the refusal-inclusive invariant behind it (`SInv` without its configuration clause: `V_`'s provenance is pinned
+    also after a refused regularisation — plain for the `defect > n_min` exit, `.broken l` for the zero-norm exit) -/
+theorem svd_invariant_with_refusals (inp0 : Full.Input) (sub : Bool) (l0 : Option (List Nat)) (ops : List Full.HOp) :
+    let h := hsrun ⟨inp0, Full.sinit sub l0⟩ ops
+    SInvRR h.inp h.s :=
+  hs_invariant_with_refusals inp0 sub l0 ops
+
+/-- non-vacuity: a refused `unknowns`, then `min_x([1,2])`: outside `StaleS`, the answer `.x (.reg [1,2])` is the fresh
+    object's; right after the refusal `defect()` differs (decomposed) while `unknowns` agrees (not solved) -/
+example :
+    let inp : Full.Input := { n := 4, nullity := 2, resolves := fun l => decide (2 ≤ l.length) }
+    let h1 := hsrun ⟨inp, Full.sinit true (some [1])⟩ [.q .unknowns]
+    let h2 := hsrun ⟨inp, Full.sinit true (some [1])⟩ [.q .unknowns, .q (.minx [1, 2])]
+    (hsstep ⟨inp, Full.sinit true (some [1])⟩ (.q .unknowns)).2 = .badReg
+    ∧ Full.Op.unknowns.IsQuery ∧ ¬ StaleS h2.inp h2.s ∧ (hsstep h2 (.q .unknowns)).2 = .x (.reg [1, 2])
+    ∧ DiffersS h1.inp h1.s .defect ∧ ¬ DiffersS h1.inp h1.s .unknowns := by
+  exact ⟨by decide, trivial, by decide, by decide, by decide, by decide⟩
 
 /-- **raw readers: the conditional guarantee.**  A member that reads cached artefacts WITHOUT bringing them up to date
     (`cond`, `lindep`, `qxx`, `qbb`, `qbx`, `stdev_obs`, `stdev_res`, `wcoef_res`, `unknown_stdev`, `std_error_ellipse`,
